@@ -68,6 +68,7 @@ class Callable(object):
             exec(src, self.ns)
             self.obj = self.ns['P']
         self.pa, self.pk = (), {}
+        self.base = self.obj
         if partial is not None:
             self.pa = tuple(dec(partial['args']))
             self.pk = dec(partial['kwds'])
@@ -211,7 +212,18 @@ def run_case(case, prop='C19'):
     seen_true = seen_false = False
     D = dict((n, dec(v)) for n, v in case['spec']['def'])
     D.update((n, dec(v)) for n, has, v in case['spec']['kwonly'] if has)
-    for args, kwds in gen_calls(rng, case['spec'], defaults=D, fixed=len(tgt.pa), pk=tuple(tgt.pk)):
+    work = [(tgt, a, k) for a, k in gen_calls(rng, case['spec'], defaults=D, fixed=len(tgt.pa), pk=tuple(tgt.pk))]
+    if tgt.pa or tgt.pk:
+        # afterwards the callable the partial wraps is asked about on its own: inspecting the partial must not
+        # have changed what klepto thinks of the underlying function (state kept between inspections)
+        import copy as _copy
+        tb = _copy.copy(tgt)
+        tb.obj, tb.pa, tb.pk = tgt.base, (), {}
+        work += [(tb, a, k) for a, k in gen_calls(rng, case['spec'], n=6, defaults=D)]
+    full = tgt
+    for tgt, args, kwds in work:
+        if tgt is not full:
+            note('c19_base_after_partial_checks')
         real = tgt.real(args, kwds)
         if tgt.bind(args, kwds) != real:
             # known quirk of the second oracle: inspect.signature() of a partial whose target takes **kw drops the
@@ -252,7 +264,8 @@ def run_case(case, prop='C19'):
             note('c19_invalid_calls')
         base = {'property': 'C19', 'case': case, 'call': [enc(args), enc(kwds)]}
         desc = '%s%s sig (%s)%s, call %r/%r' % (
-            case['kind'], ' partial%r' % ((tgt.pa, tgt.pk),) if (tgt.pa or tgt.pk) else '',
+            case['kind'], ' partial%r' % ((tgt.pa, tgt.pk),) if (tgt.pa or tgt.pk) else
+            (' (the function itself, after its partial %r was inspected)' % ((full.pa, full.pk),) if tgt is not full else ''),
             spec_src(case['spec']), '', args, kwds)
         m = mechs(case, tgt, args, kwds)
         if called:
